@@ -77,7 +77,7 @@ class Steps(object):
 _QUOTED = re.compile(r'''(?P<q>'(?:[^'\\]|\\.)*'|"(?:[^"\\]|\\.)*") at (?P<l>\d+):(?P<c>\d+)''', re.S)
 
 
-_NONNUMERIC_POS = re.compile(r'''(?P<q>'(?:[^'\\]|\\.)*'|"(?:[^"\\]|\\.)*") at (?P<p>(?:\d+:(?!\d)[^\s,]*|(?!\d)[^\s:]*:\S*))''', re.S)
+_ANY_QUOTED = re.compile(r'''(?P<q>'(?:[^'\\]|\\.)*'|"(?:[^"\\]|\\.)*") at (?P<p>\S+)''', re.S)
 _REGEX_MSG = re.compile(r"^Error parsing regular expression '(?P<q>.*)' at (?P<l>\d+):(?P<c>\d+)$", re.S)
 _CLASSES = ['Error parsing regular expression', 'Unexpected end of input', 'Unexpected', 'Illegal character',
             'Unterminated string literal', 'Invalid hexadecimal escape sequence', 'Invalid unicode escape sequence',
@@ -96,27 +96,14 @@ def check_message(text, msg):
     The line:column quoted for the *offending* (first) quotation must be a
     place where that text occurs.  Returns None / 'unchecked' / a defect text.
     """
-    # a position that is not a pair of numbers names no place at all
-    bad = _NONNUMERIC_POS.search(msg)
-    if bad:
-        return 'message %r quotes %s at %r: not a line:column' % (msg[:120], bad.group('q')[:30], bad.group('p'))
+    # the position quoted for the offending text (the first quotation) is a pair of numbers, or it names no place
+    first = _ANY_QUOTED.search(msg)
+    if first and not re.match(r'^\d+:\d+$', first.group('p').rstrip('.,;')):
+        return 'message %r quotes %s at %r: not a line:column' % (msg[:120], first.group('q')[:30], first.group('p'))
     m = _REGEX_MSG.match(msg)
     if m:
         q = m.group('q')       # this message quotes the raw text, not its repr
     else:
-        # the tokens quoted for orientation ("after 'x' at l:c", "between ... and ...") are places in the input too
-        table = refjs.LineTable(text)
-        for extra in list(_QUOTED.finditer(msg))[1:]:
-            try:
-                q2 = ast.literal_eval(extra.group('q'))
-            except Exception:
-                continue
-            off2 = table.offset(int(extra.group('l')), int(extra.group('c')))
-            if q2.endswith('...'):
-                q2 = q2[:-3]
-            if off2 is None or not (0 <= off2 <= len(text)) or not text.startswith(q2, off2):
-                return 'message %r: the neighbouring text %r does not occur at %s:%s' % (
-                    msg[:140], q2[:40], extra.group('l'), extra.group('c'))
         m = _QUOTED.search(msg)
         if not m:
             return 'unchecked'
